@@ -331,4 +331,55 @@ theorem statsFilter_eq : Nsq.Gen.Chan.statsFilter = ([
   "branch continue",
   "stmt return stats"] : List String) := by decide
 
+/-- C03 (output buffer, model `Nsq.Model.Pump`): the pump's three-way arming at the head of its loop (not ready: queue cases and flusher off + forced `Flush`, `flushed = true`; flushed: flusher off; else flusher = ticker), the flusher case (`Flush`, `flushed = true`), the one-shot `subEventChan` / `identifyEventChan` (set to nil when taken), the ticker replaced only when `OutputBufferTimeout > 0`, the heartbeat through `Send`, `flushed = false` after a message was written. -/
+theorem pumpFlush_eq : Nsq.Gen.Chan.pumpFlush = ([
+  "assign outputBufferTicker := time.NewTicker(client.OutputBufferTimeout)",
+  "assign heartbeatChan := heartbeatTicker.C",
+  "assign flushed := true",
+  "if subChannel == nil || !client.IsReadyForMessages()",
+  "assign memoryMsgChan = nil",
+  "assign backendMsgChan = nil",
+  "assign flusherChan = nil",
+  "assign err = client.Flush()",
+  "assign flushed = true",
+  "if flushed",
+  "assign memoryMsgChan = subChannel.memoryMsgChan",
+  "assign backendMsgChan = subChannel.backend.ReadChan()",
+  "assign flusherChan = nil",
+  "assign memoryMsgChan = subChannel.memoryMsgChan",
+  "assign backendMsgChan = subChannel.backend.ReadChan()",
+  "assign flusherChan = outputBufferTicker.C",
+  "do <-flusherChan",
+  "assign err = client.Flush()",
+  "assign flushed = true",
+  "do <-client.ReadyStateChan",
+  "assign subEventChan = nil",
+  "assign identifyEventChan = nil",
+  "do outputBufferTicker.Stop()",
+  "if identifyData.OutputBufferTimeout > 0",
+  "assign outputBufferTicker = time.NewTicker(identifyData.OutputBufferTimeout)",
+  "assign heartbeatChan = nil",
+  "if identifyData.HeartbeatInterval > 0",
+  "assign heartbeatChan = heartbeatTicker.C",
+  "do <-heartbeatChan",
+  "assign err = p.Send(client, frameTypeResponse, heartbeatBytes)",
+  "assign flushed = false",
+  "do outputBufferTicker.Stop()"] : List String) := by decide
+
+/-- C03 (output buffer): `protocolV2.Send` writes the frame under `writeLock` and flushes iff it is not a message frame (model `respond` / `heartbeat` flush, `recv` does not). -/
+theorem sendFlush_eq : Nsq.Gen.Chan.sendFlush = ([
+  "do client.writeLock.Lock()",
+  "assign _, err := protocol.SendFramedResponse(client.Writer, frameType, data)",
+  "do client.writeLock.Unlock()",
+  "if frameType != frameTypeMessage",
+  "assign err = client.Flush()",
+  "do client.writeLock.Unlock()"] : List String) := by decide
+
+/-- C03 (seeded C03-m7): `Topic.doPause` stores the flag and then notifies the pump through a BLOCKING select — only the arms `pauseChan <- 1` and `<-exitChan`, no `default:` (a row `select-default` would appear here): `Pause()` / `UnPause()` return only when the pump has taken the notification (model: `pauseTopic` is one atomic step; behaviourally: leg `busypause`, corpus/C03/busy_pause.ops). -/
+theorem topicDoPauseSelect_eq : Nsq.Gen.Chan.topicDoPauseSelect = ([
+  "do atomic.StoreInt32(&t.paused, 1)",
+  "do atomic.StoreInt32(&t.paused, 0)",
+  "send t.pauseChan <- 1",
+  "do <-t.exitChan"] : List String) := by decide
+
 end Nsq.Tie.Chan
